@@ -855,6 +855,28 @@ func runCase(w *tr.Writer, seed uint64, idx int, focus string) {
 				quiet()
 			}
 		}
+		if cfg.scenario == "flood-then-shutdown" && len(peers) > 0 {
+			// more asynchronous writes than the high-priority threshold are queued while the loop is busy, then a
+			// Wake: it is shunted to the low-priority queue, and the OnTraffic it leads to returns Shutdown -- which
+			// must end the engine like a Shutdown from anywhere else (C06)
+			if ci := h.byCid(peers[0].cid); ci != nil && ci.c != nil {
+				select {
+				case <-h.inTraffic:
+				case <-time.After(time.Second):
+				}
+				for i := 0; i < 1100; i++ {
+					data := []byte(fmt.Sprintf("%07d ", i))
+					h.op(ci, tr.L("async", "write", tr.I(ci.mcid), tr.X(data), "1"))
+					ci.c.AsyncWrite(data, h.acb("write", ci, true, data))
+				}
+				h.op(ci, tr.L("async", "wake", tr.I(ci.mcid), "0"))
+				ci.c.Wake(nil)
+				close(h.release)
+				for t0 := time.Now(); !engineDown() && time.Since(t0) < 2*time.Second; {
+					recvSome(peers[0], 1<<20, 5*time.Millisecond)
+				}
+			}
+		}
 		if cfg.scenario == "async-flood" && len(peers) > 0 {
 			// 1500 asynchronous writes are issued while the loop is busy inside OnTraffic
 			if ci := h.byCid(peers[0].cid); ci != nil && ci.c != nil {
